@@ -41,54 +41,89 @@ def norm(n, L, en):
     return n["lsb"], n["msb"]
 
 
-def spec_run(m):
-    """Independent statement of the property for one history (None = outside the quantifier)."""
-    addr, L, en, base, mem = m["addr"], m["length"], m["endian"], m["base"], list(m["image"])
+def spec_step(m, mem, op):
+    """One operation of the property on the register contents mem (the device's bytes):
+    -> (result, image written or None), or None = outside the quantifier."""
+    addr, L, en, base = m["addr"], m["length"], m["endian"], m["base"]
     off = addr - base
-    res, writes = [], []
-    for op in m["ops"]:
-        k = op[0]
-        n = m["nodes"][op[1]]
-        p = pattern(mem[off:off + L], en)
-        if n["kind"] == "int":
-            if k == "v":
-                u = p
-                if n.get("sign") and u >> (8 * L - 1):
-                    u -= 1 << (8 * L)
-                if not n.get("sign") and L == 8 and u >> 63:
-                    u -= 1 << 64
-                res.append([0, u])
-            else:
-                return None
-            continue
-        lo, hi = norm(n, L, en)
-        if not (0 <= lo <= hi < 8 * L):
+    k = op[0]
+    n = m["nodes"][op[1]]
+    p = pattern(mem[off:off + L], en)
+    if n["kind"] == "int":
+        if k != "v":
             return None
-        sign = n.get("sign", 0)
-        w = hi - lo + 1
-        mn, mx = frange(w, sign)
-        if k == "mn":
-            res.append([0, mn])
-        elif k == "mx":
-            res.append([0, mx])
-        elif k == "v":
-            v = fget(p, lo, hi, sign)
-            if not sign and w == 64 and v >> 63:
-                return None      # the i64 API cannot represent it
-            res.append([0, v])
-        elif k == "s":
-            v = op[2]
-            if v < mn or v > mx:
-                res.append([1, 33])
-            else:
-                np = fput(p, lo, hi, v)
-                img = to_bytes(np, L, en)
-                writes.append((addr, img))
-                mem[off:off + L] = img
-                res.append([0])
-        else:
-            return None
-    return res, writes, mem
+        u = p
+        if n.get("sign") and u >> (8 * L - 1):
+            u -= 1 << (8 * L)
+        if not n.get("sign") and L == 8 and u >> 63:
+            u -= 1 << 64
+        return [0, u], None
+    lo, hi = norm(n, L, en)
+    if not (0 <= lo <= hi < 8 * L):
+        return None
+    sign = n.get("sign", 0)
+    w = hi - lo + 1
+    mn, mx = frange(w, sign)
+    if k == "mn":
+        return [0, mn], None
+    if k == "mx":
+        return [0, mx], None
+    if k == "v":
+        v = fget(p, lo, hi, sign)
+        if not sign and w == 64 and v >> 63:
+            return None      # the i64 API cannot represent it
+        return [0, v], None
+    if k == "s":
+        v = op[2]
+        if v < mn or v > mx:
+            return [1, 33], None
+        return [0], to_bytes(fput(p, lo, hi, v), L, en)
+    return None
+
+
+def spec_check(m, res, wlog):
+    """Independent statement of the property for one history, checked against the observed results
+    and the observed device writes.  A scripted rejection (op 'rej': one of the next device accesses
+    fails) may make ONE later value / set operation fail with a device error; that operation then
+    leaves the device as it was (a failed read-modify-write writes nothing, or its single write was
+    the rejected access) and every later operation again sees the register as the device holds it.
+    -> None (holds / outside the quantifier) or a message."""
+    addr, L, base = m["addr"], m["length"], m["base"]
+    off = addr - base
+
+    def go(i, mem, armed, wi):
+        if i == len(m["ops"]):
+            if wi != len(wlog):
+                return "device writes beyond the required ones (field bits only)"
+            return ("mem", mem)
+        op = m["ops"][i]
+        if op[0] == "rej":
+            if res[i] != [0]:
+                return "harness: rej"
+            return go(i + 1, mem, armed + 1, wi)
+        st = spec_step(m, mem, op)
+        if st is None:
+            return ("skip", None)
+        e, img = st
+        if res[i] == [1, 30] and armed > 0 and op[0] in ("v", "s") and e != [1, 33]:
+            # the rejected access: nothing reaches the device, or the one write that would have was refused
+            r = go(i + 1, mem, armed - 1, wi)
+            if not isinstance(r, str):
+                return r
+            if img is not None and wi < len(wlog) and wlog[wi] == (addr, img):
+                return go(i + 1, mem, armed - 1, wi + 1)
+            return r
+        if res[i] != e:
+            return "op %d %r: result %r, the property requires %r" % (i, op, res[i][:4], e[:4])
+        if img is not None:
+            if wi >= len(wlog) or wlog[wi] != (addr, img):
+                return "op %d %r: device write differs from the required one (field bits only, of the register as the device holds it)" % (i, op)
+            mem = list(mem)
+            mem[off:off + L] = img
+            wi += 1
+        return go(i + 1, mem, armed, wi)
+
+    return go(0, list(m["image"]), 0, 0)
 
 
 def predicate(c, out):
@@ -108,17 +143,12 @@ def predicate(c, out):
         ln = e[2] if e[0] == "R" else len(e[2])
         if e[1] != m["addr"] or ln != m["length"]:
             return "device access outside the register"
-    exp = spec_run(m)
-    if exp is None:
-        return None
-    eres, ewrites, emem = exp
-    if res != eres:
-        i = [a == b for a, b in zip(res, eres)].index(False)
-        return "op %d %r: result %r, the property requires %r" % (i, m["ops"][i], res[i][:4], eres[i][:4])
-    writes = [(e[1], e[2]) for e in log if e[0] == "W"]
-    if writes != ewrites:
-        return "device writes differ from the required ones (field bits only)"
-    if mem != emem:
+    # writes that reached the device or were refused by it, in order
+    wlog = [(e[1], e[2]) for e in log if e[0] == "W"]
+    r = spec_check(m, res, wlog)
+    if isinstance(r, str):
+        return r
+    if r[0] == "mem" and mem != r[1]:
         return "final register contents differ: other bits changed or field wrong"
     return None
 
@@ -233,6 +263,24 @@ def gen_cases(ck):
         c = reg_case(base + 4, L, en, base, image, nodes, ops, flags=0, cachable="WriteThrough", sibling_invalidators=True)
         c.kind = "reg-cached"
         cases.append(c)
+        # the same history with a caching mode of its own for every sibling (NoCache / WriteThrough /
+        # WriteAround mixed), and with device accesses failing at scripted points (uncached: compared
+        # with the model too; cached: the rejection hits whichever operation next reaches the device)
+        mixed = [dict(n, cachable=rng.choice(["NoCache", "WriteThrough", "WriteAround"])) for n in nodes]
+        c = reg_case(base + 4, L, en, base, image, mixed, ops, flags=0, sibling_invalidators=True)
+        c.kind = "reg-cached"
+        cases.append(c)
+        rops = []
+        for o in ops:
+            if rng.chance(1, 5):
+                rops.append(("rej", rng.choice([0, 0, 1, 2])))
+            rops.append(o)
+            if o[0] == "s" and rng.chance(1, 3):
+                rops.append(o)          # the caller repeats the operation
+        cases.append(reg_case(base + 4, L, en, base, image, nodes, rops, flags=1))
+        c = reg_case(base + 4, L, en, base, image, mixed, rops, flags=0, sibling_invalidators=True)
+        c.kind = "reg-cached"
+        cases.append(c)
     # the pure BitMask arithmetic of the model vs itself is covered by theorems; sample it through the nodes only
     return cases
 
@@ -245,6 +293,8 @@ def main():
              "signed/unsigned, LSB/MSB or single Bit; values exhaustive for fields <= 8 bits, boundaries (min-1, min, "
              "max, max+1, each 2^k and neighbours) + random above; prior contents zeros / ones / alternating / random; "
              "histories of set/value pairs after min/max; 2-3 sibling fields partitioning a register with random "
-             "interleavings of writes, uncached and cached with mutual invalidators; real nodes vs extracted model "
+             "interleavings of writes, uncached and cached with mutual invalidators, with a caching mode of its own per "
+             "sibling (NoCache / WriteThrough / WriteAround mixed) and with device accesses rejected at scripted "
+             "points followed by repeated operations; real nodes vs extracted model "
              "(uncached); predicate = independent Python field_get/field_put over the register pattern; non-trivial = "
              "at least one device write")
